@@ -73,6 +73,9 @@ class C08(Prop):
             out.count("reach:quic_world")
         prev = None
         for k in self.positions(n, spec.get("tier", "quick")):
+            if lane.expired():
+                out.count("enumeration_truncated_by_budget")
+                break
             s2 = copy.deepcopy(spec)
             s2["faults"] = list(spec.get("faults", [])) + [{"k": "cut", "i": k}]
             if k >= n:
